@@ -173,7 +173,8 @@ fn trigger_deserialize<'a, E>(
     deserialize: EventDeserializeFn<ServerReceiveCtx<'a>, E>,
 ) -> Result<ClientTriggerEvent<E>> {
     let len = postcard_utils::from_buf(message)?;
-    let mut targets = Vec::with_capacity(len);
+    // Each entity takes at least one byte, so don't trust the received length for the allocation.
+    let mut targets = Vec::with_capacity(usize::min(len, message.len()));
     for _ in 0..len {
         let entity = entity_serde::deserialize_entity(message)?;
         targets.push(entity);
